@@ -348,8 +348,8 @@ def run_imm_seq(chk, tier, beh=None, tag="immseq"):
                     st["flush_async"] += 1
                     if not g["ready"]:
                         viol = f"step {i + 1}: the future of flush_async was not ready at its first poll ({g.get('message')})"
-                    elif calls:
-                        viol = f"step {i + 1}: flush_async called the stream: {calls}"
+                    elif calls and drift is None:
+                        drift = {"kind": "imm-seq", "behaviour": b["id"], "sink": b["sink"], "step": i + 1, "what": f"flush_async called the stream: {calls}"}
                     if viol:
                         break
                     continue
@@ -612,6 +612,10 @@ def rl_scenarios(chk, tier):
             t += gap
             bursts.append({"gap_ms": gap, "n": rng.randint(1, 6), "fail": rng.random() < 0.8 or not bursts})
         out.append({"id": p + 1, "threads": rng.choice([1, 2, 3]), "bursts": bursts})
+    # a long quiet period, then a burst: exactly one report for the burst (a limiter that schedules from its
+    # previous deadline instead of from now would report several times)
+    out[0] = {"id": 1, "threads": out[0]["threads"], "bursts": [{"gap_ms": 0, "n": 3, "fail": True},
+              {"gap_ms": rng.choice([2100, 2300, 3050]), "n": 6, "fail": True}, {"gap_ms": rng.choice([20, 200]), "n": 3, "fail": True}]}
     return out
 
 
@@ -676,7 +680,12 @@ def run(prop, tier):
              ("imm models", imm_models), ("imm sequential", run_imm_seq), ("imm concurrent", run_imm_conc),
              ("test sinks", run_tsink), ("rate limit models", rl_models),
              ("rate limit traces", lambda c, t: rl_validate(c, rl_future.result()))]
+    only = os.environ.get("VERIF_X02_ONLY")      # self-test only: run the steps of one subject (lambda | imm | test | rate)
     for name, step in steps:
+        if only and not name.startswith(only):
+            continue
+        if vlib.SKIP_MC and name.endswith("models"):
+            continue
         t0 = time.time()
         step(chk, tier)
         log(f"[{prop}] {name}: {time.time() - t0:.1f}s")
